@@ -333,6 +333,230 @@ fn cmd_splay(id: &str, t: &mut Toks) -> String {
     }
 }
 
+// ---------------------------------------------------------------- orders, pairs, intersection step, decision table
+fn cmp_chr(o: std::cmp::Ordering) -> char {
+    match o {
+        std::cmp::Ordering::Less => 'L',
+        std::cmp::Ordering::Greater => 'G',
+        std::cmp::Ordering::Equal => 'E',
+    }
+}
+
+fn orders_finish<F: Bits>(evs: &[Rc<SweepEvent<F>>]) -> String {
+    let n = evs.len();
+    let mut m1 = String::with_capacity(n * n);
+    for i in 0..n {
+        for j in 0..n {
+            m1.push(cmp_chr(evs[i].cmp(&evs[j])));
+        }
+    }
+    let lefts: Vec<&Rc<SweepEvent<F>>> = evs.iter().filter(|e| e.is_left()).collect();
+    let m = lefts.len();
+    let mut m2 = String::with_capacity(m * m);
+    for i in 0..m {
+        for j in 0..m {
+            m2.push(cmp_chr(compare_segments(lefts[i], lefts[j])));
+        }
+    }
+    let segs: Vec<String> = evs
+        .iter()
+        .map(|e| {
+            format!(
+                "{} {} {} {} {}",
+                pt_str(e.point),
+                match e.get_other_event() {
+                    Some(o) => pt_str(o.point),
+                    None => "~ ~".to_string(),
+                },
+                b01(e.is_left()),
+                b01(e.is_subject),
+                e.contour_id
+            )
+        })
+        .collect();
+    format!("{} {} | {} | {} {}", n, segs.join(" ; "), m1, m, m2)
+}
+
+fn cmd_orders<F: Bits>(id: &str, t: &mut Toks) -> String {
+    let _profile = t.next();
+    let budget = t.int() as u64;
+    let op = op_of(t.next());
+    let a: Vec<_> = read_operand::<F>(t).as_vec();
+    let b: Vec<_> = read_operand::<F>(t).as_vec();
+    let stage = t.next();
+    verif_hooks::reset_event_budget(budget);
+    let r = guarded(|| {
+        let mut sbbox = empty_box::<F>();
+        let mut cbbox = empty_box::<F>();
+        let mut q = fill_queue(&a, &b, &mut sbbox, &mut cbbox, op);
+        if stage == "q" {
+            let mut evs = Vec::new();
+            while let Some(e) = q.pop() {
+                evs.push(e);
+            }
+            orders_finish(&evs)
+        } else {
+            let evs = subdivide(&mut q, &sbbox, &cbbox, op);
+            let s = orders_finish(&evs);
+            drop(q);
+            s
+        }
+    });
+    match r {
+        Ok(s) => format!("orders {} ok {}", id, s),
+        Err(c) => format!("orders {} {}", id, c),
+    }
+}
+
+type Ev<F> = Rc<SweepEvent<F>>;
+/// (left event, right event), built the way fill_queue builds a segment
+fn mk_segment<F: Bits>(p: Coord<F>, q: Coord<F>, subj: bool, cid: u32) -> (Ev<F>, Ev<F>) {
+    let e1 = SweepEvent::new_rc(cid, p, false, std::rc::Weak::new(), subj, true);
+    let e2 = SweepEvent::new_rc(cid, q, false, Rc::downgrade(&e1), subj, true);
+    e1.set_other_event(&e2);
+    if e1 < e2 {
+        e2.set_left(true)
+    } else {
+        e1.set_left(true)
+    }
+    if e1.is_left() {
+        (e1, e2)
+    } else {
+        (e2, e1)
+    }
+}
+
+fn cmd_pair<F: Bits>(id: &str, t: &mut Toks) -> String {
+    let p1 = read_pt::<F>(t);
+    let q1 = read_pt::<F>(t);
+    let s1 = t.int() == 1;
+    let c1 = t.int() as u32;
+    let p2 = read_pt::<F>(t);
+    let q2 = read_pt::<F>(t);
+    let s2 = t.int() == 1;
+    let c2 = t.int() as u32;
+    let r = guarded(|| {
+        let (l1, r1) = mk_segment(p1, q1, s1, c1);
+        let (l2, r2) = mk_segment(p2, q2, s2, c2);
+        let c = |a: &Ev<F>, b: &Ev<F>| cmp_chr(a.cmp(b));
+        let s = |a: &Ev<F>, b: &Ev<F>| cmp_chr(compare_segments(a, b));
+        format!(
+            "{}{}{}{}{}{}{}{} {}{}{}{}",
+            c(&l1, &l2), c(&l2, &l1), c(&r1, &r2), c(&r2, &r1), c(&l1, &r2), c(&r2, &l1), c(&r1, &l2), c(&l2, &r1),
+            s(&l1, &l2), s(&l2, &l1), s(&l1, &l1), s(&l2, &l2)
+        )
+    });
+    match r {
+        Ok(s) => format!("pair {} {}", id, s),
+        Err(c) => format!("pair {} {}", id, c),
+    }
+}
+
+fn cmd_pi<F: Bits>(id: &str, t: &mut Toks) -> String {
+    let _profile = t.next();
+    let p1 = read_pt::<F>(t);
+    let q1 = read_pt::<F>(t);
+    let (s1, io1, oio1) = (t.int() == 1, t.int() == 1, t.int() == 1);
+    let p2 = read_pt::<F>(t);
+    let q2 = read_pt::<F>(t);
+    let (s2, io2, oio2) = (t.int() == 1, t.int() == 1, t.int() == 1);
+    let r = guarded(|| {
+        let (l1, r1) = mk_segment(p1, q1, s1, 1);
+        let (l2, r2) = mk_segment(p2, q2, s2, 2);
+        l1.set_in_out(io1, oio1);
+        l2.set_in_out(io2, oio2);
+        let mut queue = std::collections::BinaryHeap::new();
+        let code = possible_intersection(&l1, &l2, &mut queue);
+        let refstr = |o: Option<Ev<F>>| match o {
+            None => "~".to_string(),
+            Some(o) => format!("@{}", pt_str(o.point)),
+        };
+        let mut evs = Vec::new();
+        while let Some(e) = queue.pop() {
+            evs.push(e);
+        }
+        let strs: Vec<String> = evs.iter().map(|e| event_str(e, &refstr)).collect();
+        let s = format!("{} | {} | {} | {} | {}", code, event_str(&l1, &refstr), event_str(&l2, &refstr), strs.len(), strs.join(" ; "));
+        drop((r1, r2));
+        s
+    });
+    match r {
+        Ok(s) => format!("pi {} ok {}", id, s),
+        Err(c) => format!("pi {} {}", id, c),
+    }
+}
+
+fn cmd_cftable(id: &str, _t: &mut Toks) -> String {
+    let r = guarded(|| {
+        let mut out = String::new();
+        let bools = [false, true];
+        let ops = [Operation::Intersection, Operation::Union, Operation::Difference, Operation::Xor];
+        let types = [EdgeType::Normal, EdgeType::NonContributing, EdgeType::SameTransition, EdgeType::DifferentTransition];
+        let rts = [ResultTransition::None, ResultTransition::InOut, ResultTransition::OutIn];
+        let pt = |x: f64, y: f64| Coord { x, y };
+        for op in ops {
+            for esubj in bools {
+                for ety in types {
+                    for pk in 0..3 {
+                        for psubj in bools {
+                            for pio in bools {
+                                for poio in bools {
+                                    for prt in rts {
+                                        for ppk in 0..2 {
+                                            if pk == 0 && (psubj || pio || poio || prt != ResultTransition::None || ppk == 1) {
+                                                continue;
+                                            }
+                                            let (pp, _ppr) = mk_segment(pt(0., -5.), pt(9., -5.), true, 7);
+                                            let (pl, _plr) = if pk == 2 {
+                                                mk_segment(pt(1., 0.), pt(1., 4.), psubj, 1)
+                                            } else {
+                                                mk_segment(pt(0., 0.), pt(9., 1.), psubj, 1)
+                                            };
+                                            pl.set_in_out(pio, poio);
+                                            pl.set_result_transition(prt);
+                                            if ppk == 1 {
+                                                pl.set_prev_in_result(&pp);
+                                            }
+                                            let (el, _elr) = mk_segment(pt(1., 2.), pt(8., 3.), esubj, 2);
+                                            el.set_edge_type(ety);
+                                            compute_fields(&el, if pk == 0 { None } else { Some(&pl) }, op);
+                                            let pir = match el.get_prev_in_result() {
+                                                None => "~",
+                                                Some(x) => {
+                                                    if Rc::ptr_eq(&x, &pl) {
+                                                        "p"
+                                                    } else if Rc::ptr_eq(&x, &pp) {
+                                                        "q"
+                                                    } else {
+                                                        "?"
+                                                    }
+                                                }
+                                            };
+                                            out.push_str(&format!(
+                                                "{}{}{}{}{} ",
+                                                b01(el.is_in_out()),
+                                                b01(el.is_other_in_out()),
+                                                rt_str(el.get_result_transition()),
+                                                pir,
+                                                et_str(el.get_edge_type())
+                                            ));
+                                        }
+                                    }
+                                }
+                            }
+                        }
+                    }
+                }
+            }
+        }
+        out
+    });
+    match r {
+        Ok(s) => format!("cftable {} {}", id, s.trim_end()),
+        Err(c) => format!("cftable {} {}", id, c),
+    }
+}
+
 fn main() {
     install_panic_hook();
     let stdin = std::io::stdin();
@@ -348,7 +572,7 @@ fn main() {
         let cmd = t.next();
         let id = t.next();
         let res = match cmd {
-            "bool" | "fillq" | "subdiv" => {
+            "bool" | "fillq" | "subdiv" | "orders" | "pair" | "pi" => {
                 let prec = t.next();
                 match (cmd, prec) {
                     ("bool", "64") => cmd_bool::<f64>(id, &mut t),
@@ -357,14 +581,20 @@ fn main() {
                     ("fillq", "32") => cmd_fillq::<f32>(id, &mut t),
                     ("subdiv", "64") => cmd_subdiv::<f64>(id, &mut t),
                     ("subdiv", "32") => cmd_subdiv::<f32>(id, &mut t),
+                    ("orders", "64") => cmd_orders::<f64>(id, &mut t),
+                    ("orders", "32") => cmd_orders::<f32>(id, &mut t),
+                    ("pair", "64") => cmd_pair::<f64>(id, &mut t),
+                    ("pair", "32") => cmd_pair::<f32>(id, &mut t),
+                    ("pi", "64") => cmd_pi::<f64>(id, &mut t),
+                    ("pi", "32") => cmd_pi::<f32>(id, &mut t),
                     _ => format!("error bad precision {}", prec),
                 }
             }
             "splay" => cmd_splay(id, &mut t),
+            "cftable" => cmd_cftable(id, &mut t),
             _ => format!("error unknown command {}", cmd),
         };
         writeln!(out, "{}", res).unwrap();
         out.flush().unwrap();
     }
-    let _ = (compare_segments::<f64>, compute_fields::<f64>, possible_intersection::<f64>);
 }
